@@ -687,8 +687,9 @@ pub fn run_uni_property(opt: &Options, prop: &'static str) -> i32 {
     } else {
         UniBudget {
             inputs: opt.scaled(match prop {
-                "C03" => 60_000,
-                _ => 20_000,
+                "C03" => 150_000,
+                "C02" => 60_000,
+                _ => 24_000,
             }),
             schedules_per_variant: match prop {
                 "C03" => 24,
@@ -1042,7 +1043,7 @@ fn minimise_tight(ts: &TaskSet, variant: Variant, task: usize) -> (TaskSet, usiz
 
 pub fn run_c18(opt: &Options) -> i32 {
     let t0 = std::time::Instant::now();
-    let inputs = opt.scaled(if opt.thorough() { 1_500_000 } else { 40_000 });
+    let inputs = opt.scaled(if opt.thorough() { 3_000_000 } else { 200_000 });
     let fps = (Distinct::new(28), Distinct::new(26));
     let root = opt.seed;
     let fin = |mut acc: Acc| -> i32 {
